@@ -9,6 +9,20 @@ from harness import gens
 from harness import c09, c10, c11, c12
 
 
+def forced_rows_oracle(events, rows, mask, v, tag):
+    """every mating whose mask came out empty gets a forced coordinate from a draw of its own (uniform over 0..n_var-1), so that
+    the forced coordinates of different matings are independent"""
+    ri = [e for e in events if e[0] == "randint"]
+    vals = [x for e in ri for x in e[4]]           # scalar draws or draws with size=: one value per mating either way
+    if any((e[1], e[2]) != (0, v) for e in ri) or len(vals) != len(rows):
+        return "C19-%s-forced-draws: %d matings without a drawn coordinate but %d index draws over 0..%d: forced coordinates are not drawn independently per mating" % (
+            tag, len(rows), len(vals), v - 1)
+    for x, i in zip(vals, rows):
+        if not mask[i][x]:
+            return "C19-%s-forced-draws: the forced coordinate of mating %d is not its own uniform draw" % (tag, i)
+    return None
+
+
 class C19(Check):
     ID = "C19"
     IMPORTS = "From PV Require Import Model.Repair Model.Mutate Model.Cross Model.Select Model.Variant."
@@ -58,11 +72,14 @@ class C19(Check):
                     return "C19-bin: a coordinate is not taken exactly when its own draw is below CR=%r" % CR
                 if np.any(mask[forced].sum(axis=1) != 1):
                     return "C19-bin-forced: a row without success does not get exactly one forced coordinate"
+                msg = forced_rows_oracle(ev[1:], np.where(forced)[0], mask, v, "bin")
+                if msg:
+                    return msg
             else:
                 if not ev or ev[0][0] != "randint" or ev[0][3] != n:
                     return "C19-exp-draws: exponential crossover does not draw one start index per row"
                 starts = ev[0][4]; scal = [e for e in ev[1:] if e[0] == "rand" and tuple(e[1]) == ()]
-                pos = 0
+                pos = 0; empty_rows = []
                 for i in range(n):
                     L = 0
                     while L < v:
@@ -74,11 +91,15 @@ class C19(Check):
                     want = np.zeros(v, bool)
                     for j in range(L): want[(starts[i] + j) % v] = True
                     if L == 0:
+                        empty_rows.append(i)
                         if mask[i].sum() != 1:
                             return "C19-exp-forced: empty block without exactly one forced coordinate"
                     elif not np.array_equal(mask[i], want):
                         return "C19-exp: row %d: block is not {start..start+L-1} with L = number of leading draws below CR (L=%d, start=%d, mask=%s)" % (
                             i, L, starts[i], mask[i].astype(int).tolist())
+                msg = forced_rows_oracle(ev[1:], empty_rows, mask, v, "exp")
+                if msg:
+                    return msg
             return None
         if k == "mutate":
             X = np.array([decarr(m, 2) for m in case["X"]])
